@@ -5,8 +5,8 @@ cd /repo || exit 9
 if ! git diff --quiet; then echo "REPO DIRTY - abort"; exit 9; fi
 git apply "$SEED/patch.diff" || { echo "patch does not apply"; exit 9; }
 cd /verif
-./check "$PID" "$@" > "/tmp/seedrun-$(basename $SEED)-$PID.log" 2>&1
+./check "$PID" "$@" > "/verif/.build/seedrun-$(basename $SEED)-$PID.log" 2>&1
 rc=$?
 cd /repo && git checkout -- . 
 echo "seed=$(basename $SEED) pid=$PID exit=$rc"
-grep -E "^VIOLATION|^KNOWN|^INCONCLUSIVE|tier=" "/tmp/seedrun-$(basename $SEED)-$PID.log" | cut -c1-220 | head -8
+grep -E "^VIOLATION|^KNOWN|^INCONCLUSIVE|tier=" "/verif/.build/seedrun-$(basename $SEED)-$PID.log" | cut -c1-220 | head -8
